@@ -1029,20 +1029,36 @@ func holdsChk(c catalog, id int, def *structs.HealthCheck) bool {
 	return !absent && len(d) == 0
 }
 
-// cause classifies a difference: the two shapes for which findings are recorded
+// cause classifies a difference field by field: Output is explained only by a pending
+// deferred-output timer (UpdateCheck with CheckUpdateInterval > 0), Type/Interval/Timeout/ExposedPort
+// by HealthCheck.IsSame not comparing them. A cause is reported only when EVERY differing field is
+// explained; the conjunction of the two recorded findings is its own cause.
 func cause(absent bool, d []string, deferPending bool) string {
 	if absent || len(d) == 0 {
 		return ""
 	}
-	if len(d) == 1 && d[0] == "Output" && deferPending {
-		return "deferred-output" // UpdateCheck deferred the output sync (CheckUpdateInterval > 0) and the timer is pending
-	}
+	out, aux := false, false
 	for _, f := range d {
-		if f != "Type" && f != "Interval" && f != "Timeout" && f != "ExposedPort" {
+		switch f {
+		case "Output":
+			if !deferPending {
+				return ""
+			}
+			out = true
+		case "Type", "Interval", "Timeout", "ExposedPort":
+			aux = true
+		default:
 			return ""
 		}
 	}
-	return "isame-ignored-fields" // HealthCheck.IsSame does not compare these
+	switch {
+	case out && aux:
+		return "deferred-output+isame-ignored-fields"
+	case out:
+		return "deferred-output"
+	default:
+		return "isame-ignored-fields"
+	}
 }
 
 func diffSig(absent bool, d []string) interface{} {
